@@ -279,6 +279,8 @@ def resubmit_cb(name, exname, fut):
 
 
 CHAIN_COUNT = [0]
+WRAPPED = {}
+WRAPPED_FUTS = {}
 
 
 def chain_cb(name, exname, fut):
@@ -401,10 +403,34 @@ def op_submit(op, oid, ctx):
     fname = op.get("fut") or oid
     if spec.get("dir") == "$RES":
         spec = dict(spec, dir=RESDIR)
-    exp = lv_tasks.expected(spec, tid)
+    fn = lv_tasks.run
+    w = op.get("wrapped")
+    if w:
+        # the same wrapped stateful callable is submitted again and again while the parent changes its state in between
+        if w["obj"] not in WRAPPED:
+            from loky import wrap_non_picklable_objects
+
+            o = lv_tasks.Stateful(0)
+            WRAPPED[w["obj"]] = (o, wrap_non_picklable_objects(o, keep_wrapper=bool(w.get("keep_wrapper", True))))
+        o, fn = WRAPPED[w["obj"]]
+        if "set" in w and w["set"] != o.k:
+            # arguments are pickled by the feeder thread some time after submit() returned: changing the object while an
+            # earlier submission of it may still be unpickled is the caller's own race. Change it only once they are done.
+            for pf in WRAPPED_FUTS.get(w["obj"], []):
+                try:
+                    pf.exception(timeout=60)
+                except BaseException:
+                    pass
+            WRAPPED_FUTS[w["obj"]] = []
+            o.k = w["set"]
+        exp = lv_tasks.expected(o.effective(spec), tid)
+    else:
+        exp = lv_tasks.expected(spec, tid)
     log("submit_call", oid=oid, ex=op["ex"], exid=id(ex), fut=fname, tid=tid, spec=spec, exp=exp,
         pickler=_pickler_name())
-    fut = ex.submit(lv_tasks.run, spec, tid, *lv_tasks.make_args(spec))
+    fut = ex.submit(fn, spec, tid, *lv_tasks.make_args(spec))
+    if w:
+        WRAPPED_FUTS.setdefault(w["obj"], []).append(fut)
     register_future(fname, fut, raising_cb=bool(op.get("raising_cb")), resubmit=(op["ex"] if op.get("resubmit_on_break") else None), slow_cb=op.get("slow_cb"), chain=(op["ex"] if op.get("chain_cb") else None))
     remember(op["ex"], ex)
     return {"fut": fname}
